@@ -232,8 +232,10 @@ impl<'a, 'b> G<'a, 'b> {
     }
 
     fn stmt(&mut self) {
-        let w = [8, 6, 6, 8, 5, 4, 3, 2];
+        let w = [8, 6, 6, 8, 5, 4, 3, 2, 7, 3];
         match self.t.weighted(&w) {
+            8 => self.structural_position(),
+            9 => self.function_statement_shadow(),
             0 => {
                 // targeted call statements
                 match self.t.choose(3) {
@@ -379,6 +381,74 @@ impl<'a, 'b> G<'a, 'b> {
                 self.line(&format!("emit({})", a));
             }
         }
+    }
+
+    /// a targeted call / read inside the header of a statement or another nested position: loop
+    /// bounds and steps, iterator lists, conditions, return lists, table fields, method arguments
+    fn structural_position(&mut self) {
+        self.st.expr_position += 1;
+        let e = match self.t.choose(4) {
+            0 | 1 => {
+                self.note_use("assert");
+                let a = self.args(1);
+                format!("assert({})", a)
+            }
+            2 => self.name_read(),
+            _ => {
+                self.note_use("debug");
+                let a = self.args(0);
+                format!("(debug.{}({}))", if self.t.bool(128) { "profilebegin" } else { "profileend" }, a)
+            }
+        };
+        self.counter += 1;
+        let c = self.counter;
+        let text = match self.t.choose(14) {
+            0 => format!("for i{c} = 1, (type({e}) == \"number\" and 2 or 1) do emit(\"loop\", i{c}) end"),
+            1 => format!("for i{c} = (type({e}) == \"number\" and 1 or 2), 2 do emit(\"loop\", i{c}) end"),
+            2 => format!("for i{c} = 1, 2, (type({e}) == \"number\" and 1 or 2) do emit(\"loop\", i{c}) end"),
+            3 => format!("for k{c}, v{c} in ipairs({{ ({e}) }}) do emit(k{c}, v{c}) end"),
+            4 => format!("while {e} do emit(\"while\") break end"),
+            5 => format!("repeat emit(\"repeat\") until {e} or true"),
+            6 => format!("if false then emit(\"never\") elseif {e} then emit(\"elseif\") else emit(\"else\") end"),
+            7 => format!("local function rf{c}() return {e} end emit(rf{c}())"),
+            8 => format!("emit(({{ [1] = {e} }})[1], ({{ k = {e} }}).k)"),
+            9 => format!("local o{c} = {{ m = function(self, ...) return ... end }} emit(o{c}:m({e}))"),
+            10 => format!("emit(not {e}, ({e}) and 1 or 2)"),
+            11 => format!("local u{c} u{c} = {e} emit(u{c})"),
+            12 => format!("local w{c} = {{}} w{c}[({e}) == nil and 1 or 2] = {e} emit(w{c}[1], w{c}[2])"),
+            _ => format!("emit((function(...) return select(\"#\", ...) end)({e}))"),
+        };
+        self.line(&text);
+    }
+
+    /// functions declared by a statement with a parameter named like a target: the parameter must
+    /// not be visible after the function (statements that follow at the same level use the global)
+    fn function_statement_shadow(&mut self) {
+        if self.depth >= 3 {
+            return;
+        }
+        let (p, val, kind) = match self.t.choose(4) {
+            0 => ("assert", "function(...) emit(\"param-assert\", ...) return ... end".to_string(), VKind::Nil),
+            1 => (NAME, "7".to_string(), VKind::Num),
+            2 => ("debug", "{ profilebegin = function(...) emit(\"param-begin\", ...) end, profileend = function(...) emit(\"param-end\", ...) end }".to_string(), VKind::Nil),
+            _ => ("_G", format!("{{ {} = 5 }}", NAME), VKind::Num),
+        };
+        self.counter += 1;
+        let c = self.counter;
+        let (head, call) = match self.t.choose(4) {
+            0 => (format!("local function lf{c}({p})"), format!("lf{c}({val})")),
+            1 => (format!("function gf{c}(first, {p})"), format!("gf{c}(1, {val})")),
+            2 => (format!("local lv{c} = function({p}, ...)"), format!("lv{c}({val}, 2)")),
+            _ => (format!("local holder{c} = {{}} function holder{c}:method({p})"), format!("holder{c}:method({val})")),
+        };
+        self.depth += 1;
+        self.line(&head);
+        self.shadow.push(vec![(p, kind)]);
+        self.block();
+        self.shadow.pop();
+        self.line("end");
+        self.line(&call);
+        self.depth -= 1;
     }
 
     fn shadow_decl(&mut self) {
